@@ -1,68 +1,20 @@
 package main
 
 import (
+	"crypto/sha256"
 	"fmt"
 	"os"
-	"strconv"
 
-	"verif/harness/tape"
-	"verif/harness/wagen"
-	"wa-lang.org/wa/verifbridge/wab"
+	"wa-lang.org/wa/verifbridge/compb"
 )
 
-type host struct{ mallocs, frees int }
-
-func (h *host) PreMalloc(mem []byte, size uint32) uint32     { h.mallocs++; return 0 }
-func (h *host) PostMalloc(mem []byte, ptr, size uint32)      {}
-func (h *host) PreFree(mem []byte, ptr uint32) uint32        { h.frees++; return 1 }
-func (h *host) PostHeapAlloc(mem []byte, ptr, nbytes uint32) {}
-
 func main() {
-	from, _ := strconv.Atoi(os.Args[1])
-	to, _ := strconv.Atoi(os.Args[2])
-	for i := from; i < to; i++ {
-		d := wagen.Generate(tape.NewGen(7, uint64(i)))
-		os.WriteFile("/tmp/w/gen.wa", []byte(d.Source), 0o644)
-		wat, err := wab.BuildWat("gen.wa", d.Source)
+	for _, p := range os.Args[2:] {
+		wat, wasm, err := compb.Compile(p, os.Args[1], false)
 		if err != nil {
-			fmt.Println(i, "BUILD ERR", err)
-			os.Exit(1)
+			fmt.Printf("ERR %s %.100v\n", p, err)
+			continue
 		}
-		wat2, err := wab.Instrument(wat)
-		if err != nil {
-			fmt.Println(i, "INSTR ERR", err)
-			os.Exit(1)
-		}
-		wasm, err := wab.Wat2Wasm(wat2)
-		if err != nil {
-			fmt.Println(i, "WAT2WASM ERR", err)
-			os.Exit(1)
-		}
-		c, err := wab.Compile(wasm)
-		if err != nil {
-			fmt.Println(i, "COMPILE ERR", err)
-			os.Exit(1)
-		}
-		h := &host{}
-		in, err := c.Instantiate(h)
-		if err != nil {
-			fmt.Println(i, "INST ERR", err)
-			os.Exit(1)
-		}
-		in.Call("reset")
-		t := tape.NewGen(9, uint64(i))
-		for j := 0; j < 3000; j++ {
-			op := t.Draw(d.NOps)
-			a, b, cc := t.Draw(d.Slots), t.Draw(64), t.Draw(64)
-			_, err := in.Call("step", uint64(op), uint64(a), uint64(b), uint64(cc))
-			if err != nil {
-				fmt.Printf("%d step %d op=%d (%s) a=%d b=%d c=%d: %v\n", i, j, op, d.OpDesc[op], a, b, cc, err)
-				os.Exit(1)
-			}
-		}
-		in.Call("reset")
-		fmt.Println(i, "ok ops", d.NOps, "kinds", len(d.Kinds), "mallocs", h.mallocs, "frees", h.frees)
-		in.Close()
-		c.Close()
+		fmt.Printf("OK %s %d %d %x\n", p, len(wat), len(wasm), sha256.Sum256(wat))
 	}
 }
